@@ -415,17 +415,19 @@ pub const PERCENTILES: &[f64] = &[0.0, 0.25, 0.5, 0.9, 1.0];
 
 pub fn gen_agg_call(rng: &mut Rng, s: &Schema, cfg: &ExprCfg, order_insensitive_only: bool) -> E {
     let num = |rng: &mut Rng| if rng.chance(2, 3) { Ty::Int } else { Ty::Real };
+    // SUM / AVG also exist for INTERVAL (running sums of another variant)
+    let summable = |rng: &mut Rng| match rng.below(7) { 0 => Ty::Iv, 1 | 2 => Ty::Real, _ => Ty::Int };
     let pick = rng.below(if order_insensitive_only { 13 } else { 16 });
     match pick {
         0 => E::Agg("count".into(), false, if rng.chance(1, 2) { vec![E::Star] } else { vec![] }),
         1 => { let c = &s.cols[rng.below(s.cols.len())]; E::Agg("count".into(), false, vec![col(&c.0)]) }
         2 => { let c = &s.cols[rng.below(s.cols.len())]; E::Agg("count".into(), true, vec![col(&c.0)]) }
-        3 => { let t = num(rng); E::Agg("sum".into(), false, vec![agg_arg(rng, s, &t, cfg)]) }
+        3 => { let t = summable(rng); E::Agg("sum".into(), false, vec![agg_arg(rng, s, &t, cfg)]) }
         4 | 5 => {
             let t = match rng.below(6) { 0 | 1 => Ty::Int, 2 => Ty::Real, 3 => Ty::Text, 4 => Ty::Ts, _ => Ty::Iv };
             E::Agg(rng.pick(&["min", "max"]).to_string(), false, vec![agg_arg(rng, s, &t, cfg)])
         }
-        6 => { let t = num(rng); E::Agg("avg".into(), false, vec![agg_arg(rng, s, &t, cfg)]) }
+        6 => { let t = summable(rng); E::Agg("avg".into(), false, vec![agg_arg(rng, s, &t, cfg)]) }
         7 => { let t = num(rng); E::Agg(rng.pick(&["stddev", "variance"]).to_string(), false, vec![agg_arg(rng, s, &t, cfg)]) }
         8 | 9 => { let t = match rng.below(4) { 0 => Ty::Real, 1 => Ty::Text, _ => Ty::Int }; E::Agg("percentile".into(), false, vec![agg_arg(rng, s, &t, cfg), E::Real(*rng.pick(PERCENTILES))]) }
         10 => E::Agg(rng.pick(&["bool_and", "bool_or"]).to_string(), false, vec![agg_arg(rng, s, &Ty::Bool, cfg)]),
